@@ -539,7 +539,10 @@ func c07wire(p *Prog, r *Report) {
 			if !okc {
 				return false
 			}
-			isIdx := dependsOn(b.X, func(x ssa.Value) bool { fv, _ := fieldOf(x); return fv != nil && strings.HasSuffix(fv.Name(), "ParentIndex") })
+			isIdx := dependsOn(b.X, func(x ssa.Value) bool {
+				fv, _ := fieldOf(x)
+				return fv != nil && strings.HasSuffix(fv.Name(), "ParentIndex")
+			})
 			if !isIdx {
 				return false
 			}
@@ -811,7 +814,6 @@ func sortStrings(s []string) {
 		}
 	}
 }
-
 
 // C07.store: the last gate of admission is the per-creator index slot in the in-memory store
 // (ParticipantEventsCache.Set -> RollingIndex.Set). Nothing may be cached or persisted for an
